@@ -184,6 +184,22 @@ def run(ctx):
                     alts = [("X", 65536, ("n", 1)), ("#", -65536), ("A", 70000), ("D", ("p", 9)), ("Y", -65536, ("n", 3))]
                     if cls == "FP11RMOperandStub":
                         alts += [("R", ("n", 6)), ("R", ("n", 7))]
+                if cls == "OffsetOperandStub":
+                    # just outside the reach of the displacement field, and odd distances: must be refused, never wrapped
+                    outs = [2, 4, -128, -130, -127] if s.unsigned else [256, 258, -258, -260, 3, -5]
+                    for d in outs:
+                        def build_bad(emit, d=d, k=k, name=name, stubs=stubs):
+                            ops, parts = [], []
+                            for j, s2 in enumerate(stubs):
+                                if j == k:
+                                    ops.append(("V", emit + 2 + d))
+                                    parts.append(".+%s" % num(d + 2, rng) if d + 2 > 0 else (".-%s" % num(-(d + 2), rng) if d + 2 < 0 else "."))
+                                else:
+                                    o = ("R", ("n", 1))
+                                    ops.append(o)
+                                    parts.append(render_operand(o, rng))
+                            return ops, (name + " " + ", ".join(parts)).strip()
+                        bad.append(InsnCase(name, build=build_bad, info={"must_fail": True}))
                 for alt in alts[: (len(alts) if ctx.thorough else 3)]:
                     inst = []
                     for j, s2 in enumerate(stubs):
